@@ -251,20 +251,11 @@ def _kwarg(call, name, pos=None):
     return None
 
 
-def run(ctx):
-    chk = Check('C02', ctx)
-    prog, K, E = ctx.prog, ctx.kinds, ctx.effects
-    R1 = chk.rule('C02.R1', 'every public key view answers through the single read funnel; negative answers come from its MISSING outcome only', 9)
-    R2 = chk.rule('C02.R2', 'funnel partitions the request: index -> loose (not found in index) -> refreshed index (loose probe failed) -> MISSING (still not found)', 6)
-    R3 = chk.rule('C02.R3', 'listing and counts are unions of the two stores: every index row, plus loose files not in the index', 5)
-    R4 = chk.rule('C02.R4', 'closed-world destruction table: every unlink/rename/replace/link/rmtree/DELETE/UPDATE/truncate site has a tabled owner, area and key provenance', 20)
-    R5 = chk.rule('C02.R5', 'init_container refuses to overwrite: both raising tests dominate the first write; rmtree only under clear; caches and sessions reset', 4)
-    R6 = chk.rule('C02.R6', 'maintenance keeps keys: repack stages every row with its own id/hashkey/size; loosen_object re-adds through the loose writer and compares the key', 4)
-    S = Summaries(ctx)
+def key_views_funnel_only(ctx, chk, R1, S):
+    """Call-graph rule shared by C02.R1, C04.Pr0 and C08.R3: every public pure key view of Container reaches object files and the index only
+    through the read funnel (which carries the loose-probe -> refresh -> re-query fallback); returns the list of key views."""
+    prog, K = ctx.prog, ctx.kinds
     cont = K.container
-    funnel = prog.fn(FUNNEL)
-
-    # ================================================================ R1
     def reach_fns(f, depth=8, seen=None):
         seen = seen if seen is not None else {}
         if f.qualname in seen or depth < 0:
@@ -330,6 +321,23 @@ def run(ctx):
             chk.ok(R1, f.qualname, 'call graph', detail=f'store access only via {FUNNEL.split(".")[-1]} ({len(rf)} reachable functions)')
     chk.require(len(key_views) >= 8, f'expected >= 8 public key views on Container, found {[f.name for f in key_views]}')
 
+    return key_views
+
+
+def run(ctx):
+    chk = Check('C02', ctx)
+    prog, K, E = ctx.prog, ctx.kinds, ctx.effects
+    R1 = chk.rule('C02.R1', 'every public key view answers through the single read funnel; negative answers come from its MISSING outcome only', 9)
+    R2 = chk.rule('C02.R2', 'funnel partitions the request: index -> loose (not found in index) -> refreshed index (loose probe failed) -> MISSING (still not found)', 6)
+    R3 = chk.rule('C02.R3', 'listing and counts are unions of the two stores: every index row, plus loose files not in the index', 5)
+    R4 = chk.rule('C02.R4', 'closed-world destruction table: every unlink/rename/replace/link/rmtree/DELETE/UPDATE/truncate site has a tabled owner, area and key provenance', 20)
+    R5 = chk.rule('C02.R5', 'init_container refuses to overwrite: both raising tests dominate the first write; rmtree only under clear; caches and sessions reset', 4)
+    R6 = chk.rule('C02.R6', 'maintenance keeps keys: repack stages every row with its own id/hashkey/size; loosen_object re-adds through the loose writer and compares the key', 4)
+    S = Summaries(ctx)
+    cont = K.container
+    funnel = prog.fn(FUNNEL)
+
+    key_views = key_views_funnel_only(ctx, chk, R1, S)
     # negative answers: NotExistent / False / None derive from the MISSING outcome
     def calls_to(f, method):
         return [c for c in _calls_in(f) if isinstance(c.func, ast.Attribute) and c.func.attr == method]
